@@ -515,6 +515,24 @@ rm16_modes = mem_modes + (RmReg16,)
 rm32_modes = mem_modes + (RmReg32,)
 
 
+class ModifiesRm:
+    """Mixin for instructions which modify their r/m operand in place.
+
+    The register constructors declare their register as read, which is
+    all that can be said without knowing the instruction. When such an
+    instruction has a register as r/m operand (shl, shr, sar, neg, not),
+    that register is written as well. The register allocator must know this
+    in order to store the result when the register lives on the stack.
+    """
+
+    @property
+    def defined_registers(self):
+        defined = super().defined_registers
+        if isinstance(self.rm, (RmReg8, RmReg16, RmReg32, RmReg64)):
+            defined.append(self.rm.reg_rm)
+        return defined
+
+
 class rmregbase64(X86Instruction):
     """
     Base class for legio instructions involving a register and a
@@ -713,31 +731,34 @@ class RmBase16(rmregbase16):
         tokens.set_field("opcode", self.opcode)
 
 
-def make_rm64(mnemonic, opcode, o):
+def make_rm64(mnemonic, opcode, o, modifies=False):
     """Create an instruction taking a 64 bit r/m operand"""
     rm = Operand("rm", rm64_modes)
     syntax = Syntax([mnemonic, " ", rm], priority=2)
     members = {"syntax": syntax, "rm": rm, "opcode": opcode, "reg": o}
-    return type(mnemonic.title(), (RmBase,), members)
+    bases = (ModifiesRm, RmBase) if modifies else (RmBase,)
+    return type(mnemonic.title(), bases, members)
 
 
-def make_rm32(mnemonic, opcode, o):
+def make_rm32(mnemonic, opcode, o, modifies=False):
     """Create an instruction taking a 32 bit r/m operand"""
     rm = Operand("rm", rm32_modes)
     syntax = Syntax([mnemonic, " ", rm], priority=2)
     members = {"syntax": syntax, "rm": rm, "opcode": opcode, "reg": o}
-    return type(mnemonic.title(), (RmBase,), members)
+    bases = (ModifiesRm, RmBase) if modifies else (RmBase,)
+    return type(mnemonic.title(), bases, members)
 
 
-def make_rm16(mnemonic, opcode, o):
+def make_rm16(mnemonic, opcode, o, modifies=False):
     """Create an instruction taking a 16 bit r/m operand"""
     rm = Operand("rm", rm16_modes)
     syntax = Syntax([mnemonic, " ", rm], priority=2)
     members = {"syntax": syntax, "rm": rm, "opcode": opcode, "reg": o}
-    return type(mnemonic.title(), (RmBase16,), members)
+    bases = (ModifiesRm, RmBase16) if modifies else (RmBase16,)
+    return type(mnemonic.title(), bases, members)
 
 
-Dec = make_rm64("dec", 0xFF, 1)
+Dec = make_rm64("dec", 0xFF, 1, modifies=True)
 Jmp = make_rm64("jmp", 0xFF, 4)
 # Inc = make_rm('jmp', 0xff, 4)
 
@@ -916,10 +937,10 @@ class InstructionCollection:
         # mov r/m64, r64
         self.MovRmReg = make_rm_reg("mov", 0x89, read_op1=False)
 
-        self.ShrRm = make_rm("shr", 0xD1, 5)
-        self.ShlRm = make_rm("shl", 0xD1, 4)
-        self.NotRm = make_rm("not", 0xF7, 2)
-        self.NegRm = make_rm("neg", 0xF7, 3)
+        self.ShrRm = make_rm("shr", 0xD1, 5, modifies=True)
+        self.ShlRm = make_rm("shl", 0xD1, 4, modifies=True)
+        self.NotRm = make_rm("not", 0xF7, 2, modifies=True)
+        self.NegRm = make_rm("neg", 0xF7, 3, modifies=True)
 
         if bits == 16:
             bit_tokens = [PrefixToken, RexToken, OpcodeToken, ModRmToken]
@@ -933,12 +954,18 @@ class InstructionCollection:
         else:
             raise NotImplementedError(str(bits))
 
-        class shift_cl_base(X86Instruction):
+        class shift_cl_base(ModifiesRm, X86Instruction):
             rm = Operand("rm", rm_modes)
             tokens = bit_tokens
             patterns = {"opcode": 0xD3}
             for k, v in extra_patterns.items():
                 patterns[k] = v
+            # The count lives in cl, the patterns load it via this register:
+            count_register = {16: cx, 32: ecx, 64: rcx}[bits]
+
+            @property
+            def used_registers(self):
+                return super().used_registers + [self.count_register]
 
             def encode(self):
                 tokens = self.get_tokens()
@@ -1025,11 +1052,16 @@ XorImm = make_regimm("xor", 0x81, 6)
 CmpImm = make_regimm("cmp", 0x81, 7)
 
 
-class shift8_cl_base(X86Instruction):
+class shift8_cl_base(ModifiesRm, X86Instruction):
     rm = Operand("rm", rm8_modes)
     tokens = [RexToken, OpcodeToken, ModRmToken]
     patterns = {"opcode": 0xD2}
     opcode = 0xD2
+
+    @property
+    def used_registers(self):
+        # The shift count is taken from cl:
+        return super().used_registers + [cl]
 
     def encode(self):
         tokens = self.get_tokens()
